@@ -6,6 +6,14 @@ Local Open Scope N_scope.
 
 (** literals: the encoder writes non-negative integers as N numerals (cheap to parse) *)
 Definition zc (n : N) : Z := Z.of_N n.
+(** per-record literal tables: the encoder writes each distinct literal once into a table and refers to it by
+    position (keeps the generated terms small and flat) *)
+Definition gn (t : list N) (i : nat) : N := nth i t 0.
+Definition gz (t : list N) (i : nat) : Z := Z.of_N (nth i t 0).
+Definition gb (t : list bytes) (i : nat) : bytes := nth i t [].
+Definition gh (t : list Height) (i : nat) : Height := nth i t (mkH 0 0).
+Definition gc (t : list ConsState) (i : nat) : ConsState := nth i t (mkCons 0 [] []).
+Definition ge (t : TmStore) (i : nat) : bytes * Val := nth i t ([], VRaw []).
 
 (** one operation of a history *)
 Inductive AnyOp :=
